@@ -148,6 +148,8 @@ impl Encode for VarInt {
 
 /// Encoding and decoding varint-prefixed payloads.
 pub mod payload {
+    use std::io::Read as _;
+
     use super::*;
 
     /// Encode varint-prefixed data payload.
@@ -168,9 +170,14 @@ pub mod payload {
     /// Decode varint-prefixed data payload.
     pub fn decode<R: io::Read + ?Sized>(reader: &mut R) -> Result<Vec<u8>, wire::Error> {
         let size = VarInt::decode(reader)?;
-        let mut data = vec![0; *size as usize];
-        reader.read_exact(&mut data[..])?;
+        // Nb. The declared size is untrusted: never allocate based on it,
+        // only grow the buffer as data is actually read.
+        let mut data = Vec::new();
+        let n = (&mut *reader).take(*size).read_to_end(&mut data)?;
 
+        if (n as u64) < *size {
+            return Err(io::Error::from(io::ErrorKind::UnexpectedEof).into());
+        }
         Ok(data)
     }
 }
